@@ -36,7 +36,7 @@ func (c15) Describe() CheckInfo {
 		},
 		RealCode:       []string{"gopatch main()/mainCmd.Run, findFiles/findGoFiles, internal/*"},
 		Stubs:          []string{"package os (simulated filesystem incl. symlinks, fifo, shuffled readdir)", "path/filepath Walk re-hosted on the simulated os", "io/ioutil"},
-		RequiredProbes: []string{"working-directory-gone", "excluded-dir-nested", "symlink-to-dir", "symlink-to-file", "dir-named-like-go-file", "overlapping-args", "duplicate-args", "explicit-file-in-excluded-dir", "dotdot-respelling", "absolute-arg", "non-go-file", "absolute-noncanonical-arg", "readdir-shuffled", "permuted-rerun", "dot-named-go-file", "hard-link", "non-directory-with-excluded-name", "symlink-argument", "unparseable-file-in-requested-set", "excluded-dir-named-like-go-file", "argument-through-symlinked-directory", "name-with-pattern-characters", "resolved-path-beyond-path-max", "many-unparseable-files", "file-named-like-sibling-directory", "names-differing-only-in-case", "many-skipped-generated-files-under-descriptor-limit"},
+		RequiredProbes: []string{"requested-file-without-declarations", "working-directory-gone", "excluded-dir-nested", "symlink-to-dir", "symlink-to-file", "dir-named-like-go-file", "overlapping-args", "duplicate-args", "explicit-file-in-excluded-dir", "dotdot-respelling", "absolute-arg", "non-go-file", "absolute-noncanonical-arg", "readdir-shuffled", "permuted-rerun", "dot-named-go-file", "hard-link", "non-directory-with-excluded-name", "symlink-argument", "unparseable-file-in-requested-set", "excluded-dir-named-like-go-file", "argument-through-symlinked-directory", "name-with-pattern-characters", "resolved-path-beyond-path-max", "many-unparseable-files", "file-named-like-sibling-directory", "names-differing-only-in-case", "many-skipped-generated-files-under-descriptor-limit"},
 	}
 }
 
@@ -154,6 +154,12 @@ func (c15) Gen(env *Env, seed uint64, tier string, i int) *Case {
 				data = []byte("package broken\n\nfunc {{{ vfCnt1\n")
 				c.SetNode(world.NodeSpec{Path: p, Kind: "file", Data: data})
 				continue
+			}
+			if r.Chance(1, 14) {
+				// a requested Go file without a single declaration: nothing matches in
+				// it, it is still one of the files that --print-only echoes
+				data = []byte(fmt.Sprintf("// Package sample, part %d.\npackage sample // only a clause\n", id))
+				c.Extra["no_decls"] = "1"
 			}
 			ns := world.NodeSpec{Path: p, Kind: "file", Data: data}
 			if r.Chance(1, 10) {
@@ -709,7 +715,15 @@ func (c15) Eval(env *Env, c *Case) []Violation {
 			wantFinal[p] = origData[p]
 			continue
 		}
-		b := solo(p, origData[p])
+		var b []byte
+		if !bytes.Contains(origData[p], []byte("vfCnt1")) {
+			// nothing in it for the patch: echoed as it is (the reference does not
+			// ask the program under test)
+			b = origData[p]
+			env.Probe("requested-file-without-declarations")
+		} else {
+			b = solo(p, origData[p])
+		}
 		if b == nil {
 			env.Probe("solo-reference-failed")
 			return nil
